@@ -24,7 +24,7 @@ from ..symx import E, SB, SI, lift
 ID = "C06"
 LEVEL = "model_checking"
 
-DRIVERS = ("Canonical", "HamiltonianCanonical", "Isobaric", "Isotension", "GrandCanonical", "ForceBias", "AdaptiveForceBias")
+DRIVERS = ("Canonical", "HamiltonianCanonical", "Isobaric", "Isotension", "GrandCanonical", "GrandCanonical+composites", "ForceBias", "AdaptiveForceBias")
 
 
 # ------------------------------------------------------------------ stubs for numpy's bit generator / generator
@@ -182,8 +182,14 @@ def _build(V, driver, seed):
         sim = Isobaric(atoms, temperature=300.0, pressure=0.01, max_cycles=1, seed=seed, default_displacement_move=DisplacementMove(lab), default_cell_move=CellMove())
     elif driver == "Isotension":
         sim = Isotension(atoms, temperature=300.0, pressure=0.01, max_cycles=1, seed=seed, default_displacement_move=DisplacementMove(lab), default_cell_move=CellMove())
-    else:
+    elif driver == "GrandCanonical":
         sim = GrandCanonical(atoms, exchange_atoms=mcsim.exchange_species(V, 1), temperature=300.0, chemical_potential=-0.2, number_of_exchange_particles=n, max_cycles=1, seed=seed, default_displacement_move=DisplacementMove(lab), default_exchange_move=ExchangeMove(lab))
+    else:  # grand canonical with composite moves (exchange * 2, displacement * 2)
+        sim = GrandCanonical(atoms, exchange_atoms=mcsim.exchange_species(V, 1), temperature=300.0, chemical_potential=-0.2, number_of_exchange_particles=n, max_cycles=1, seed=seed)
+        sim.add_move(ExchangeMove(lab) * 2, criteria=mcsim.CoinCriteria(), name="exch2")
+        from quansino.mc.criteria import CanonicalCriteria
+
+        sim.add_move(DisplacementMove(lab) * 2, criteria=CanonicalCriteria(), name="disp2")
     return sim, atoms
 
 
@@ -253,12 +259,12 @@ def sc_foreign(V, driver="Canonical"):
     Vm = symx.Replay({"symbols": dict(V.sym), "draws": []})
     simm, atomsm = _build(Vm, driver, 7)
     if not driver.endswith("ForceBias"):
-        from ase.calculators.lj import LennardJones
-
-        atomsm.calc = LennardJones()
+        # a calculator without per-atom internal state (ase's neighbour-list calculators break after a
+        # rejected exchange: C04's known finding, not this property's subject)
+        atomsm.calc = mcsim.ModelCalc("stateless", mcsim.PES(Vm))
     mon.install()
     try:
-        simm.run(3)
+        simm.run(25)
     finally:
         mon.remove()
     if mon.hits:
@@ -272,10 +278,8 @@ def sc_foreign(V, driver="Canonical"):
         Vr = symx.Replay({"symbols": dict(V.sym), "draws": []})
         sim, atoms = _build(Vr, driver, 7)
         if not driver.endswith("ForceBias"):
-            from ase.calculators.lj import LennardJones
-
-            atoms.calc = LennardJones()
-        sim.run(3)
+            atoms.calc = mcsim.ModelCalc("stateless", mcsim.PES(Vr))
+        sim.run(12)
         outs.append((np.array(atoms.positions).copy(), np.array(atoms.cell.array).copy(), len(atoms)))
     same = outs[0][2] == outs[1][2] and np.array_equal(outs[0][0], outs[1][0]) and np.array_equal(outs[0][1], outs[1][1])
     V.prove(same, "no-foreign-entropy-consumed", info=info)
